@@ -25,6 +25,7 @@ type gen struct {
 }
 
 var fieldNames = []string{"a", "b", "c", "d", "e"}
+var quotedNames = []string{`"a b"`, `"a-b"`, `"1x"`, `"_h"`, `"#D0"`, `"if"`, `"a.b"`, `"é"`, `"\"q"`, `"null"`, `"0"`}
 
 func (g *gen) pick(xs []string) string { return xs[g.r.IntN(len(xs))] }
 
@@ -113,6 +114,11 @@ func (g *gen) structLit(depth int, inDef bool) (string, *shape) {
 	used := map[string]bool{}
 	for i := 0; i < n; i++ {
 		name := g.pick(fieldNames)
+		if g.r.IntN(12) == 0 {
+			// labels that only exist in quoted form (string labels that look like hidden fields,
+			// definitions, numbers, keywords, or contain blanks / punctuation)
+			name = g.pick(quotedNames)
+		}
 		if used[name] {
 			continue
 		}
